@@ -284,3 +284,14 @@ def eraser_compositions(maxn=150):
             if len(out) >= maxn:
                 return out
     return out
+
+
+def degenerate_programs():
+    """tables with no instruction at all (every size up to 3x3) and small tables whose ONLY undefined slot is A0:
+    the machine halts at step 0.  (after seeded change C15-m6: CompProg::halt_slots returning the empty set for an empty map)"""
+    out = []
+    for S in (1, 2, 3):
+        for C in (1, 2, 3):
+            out.append('  '.join(' '.join(['...'] * C) for _ in range(S)))
+    out += ['... 1RB  0LA 1LB', '... 1LA  1RA 0RB', '... 0RA 1LB  1RA 2LB 0RB', '... 1RB  1LA 0LC  1RC 1LA']
+    return out
